@@ -5,7 +5,6 @@
 From Coq Require Import List String Bool NArith ZArith.
 Import ListNotations.
 From VF Require Export common.Json gen.Gen_C07 C07.Model C07.StrictModel C07.ParseModel.
-From VF Require C16.Model.
 Open Scope string_scope.
 Open Scope list_scope.
 
@@ -115,10 +114,7 @@ Definition refined (e : option envelope) (claim : obj) : obj :=
   match e with
   | None => claim
   | Some (EnvVP iss jti) => refine_vp iss jti claim
-  | Some (EnvVC iss jti nbf iat exp fmt) =>
-      C16.Model.refine (zlookup fmt)
-        {| C16.Model.j_iss := iss; C16.Model.j_sub := ""; C16.Model.j_jti := jti; C16.Model.j_nbf := nbf;
-           C16.Model.j_iat := iat; C16.Model.j_exp := exp; C16.Model.j_vc := claim |}
+  | Some (EnvVC iss jti nbf iat exp fmt) => refine_vc (zlookup fmt) iss jti nbf iat exp claim
   end.
 
 Record case := {
